@@ -11,7 +11,7 @@ import os, re, json, random
 import vlib, proj
 from vlib import Verdict, run_tlc, vh, read_ndjson, write_ndjson, sample
 
-ORDER = ["G1", "C1", "GR", "C2", "GA", "GC", "CC", "GT", "CT", "GN", "Q", "QR", "C1b", "C0", "CN1", "CN2", "CA", "GCA", "CCA", "GCP", "GI1", "GI2", "C3"]
+ORDER = ["G1", "C1", "GR", "C2", "GA", "GC", "CC", "GT", "CT", "GN", "Q", "QR", "C1b", "C0", "CN1", "CN2", "CA", "GCA", "CCA", "GCP", "GI1", "GI2", "C3", "CL"]
 SUGAR_CONSTRAINTS = {"CN1", "CN2"}
 SUGAR = {"GT", "GN"}
 
@@ -60,6 +60,8 @@ def render(case, k):
             continue
         elif it == "C3":
             stmts.append((it, "s3 * 5 === in2;", []))
+        elif it == "CL":
+            stmts.append((it, "lut[s1] === 7;", []))
         elif it in ("CA", "GCA", "CCA", "GCP", "GI1", "GI2"):
             continue
     custom = case["kind"] == "custom"
@@ -67,7 +69,7 @@ def render(case, k):
     head += "template Sub() {\n  signal input x;\n  signal output o;\n  o <== x;\n}\n"
     head += "template Sub2() {\n  signal input p;\n  signal input q;\n  signal output o;\n  o <== p * q;\n}\n"
     head += "template %sT(n) {\n  signal input in1;\n  signal input in2;\n  signal output s1;\n  signal output s2;\n  signal s3;\n  signal sa[2];\n" % ("custom " if custom else "")
-    head += "  signal t1;\n  signal t2;\n  signal u;\n  signal w;\n  signal z;\n  signal zz1;\n  signal zz2;\n  component c = Sub();\n  component cs[2];\n  component c2 = Sub();\n"
+    head += "  signal t1;\n  signal t2;\n  signal u;\n  signal w;\n  signal z;\n  signal zz1;\n  signal zz2;\n  component c = Sub();\n  component cs[2];\n  component c2 = Sub();\n  var lut[2] = [3, 7];\n"
     text = head
     nest = case["nest"]
     ind = "  "
